@@ -20,6 +20,7 @@ EXPLANATION = (
     "inside a retry loop is given the node's config.timeout itself, resolved through closure captures. Not decided: enumeration of outcome sequences "
     "as such; a broadcast worker that panics loses its entry (documented gap `if let Ok(..) = join()`)."
     ' Wherever a future containing a retry loop is handed to a racing combinator (tokio timeout / select) the timer-won edge crosses invalidate_client.'
+    ' Wherever a fleet function calls one of the with_retry loops no client request reaches that call on any path (an attempt made outside the loop is not counted against max_attempts).'
 )
 ASSUMPTIONS = ["Range<usize>::next yields each index once", "Client/AsyncClient report a dead connection as RepeError::Io or a decode error, never as ServerError"]
 
